@@ -211,6 +211,26 @@ CHECKS = {
         "user entries are not claimed for the text round trip."),
   technique="TLC-enumerated decision table replayed on every concrete key + storage pipelines",
  ),
+ "C06": dict(
+  level="model_checking",
+  design_ref="DESIGN.md section 5, C06",
+  text=("AncillarySpec is history-free: what a read returns is a function "
+        "of the current configuration keys and temporary feature only, "
+        "`in` agrees with whether the read succeeds, and scenario C ignores "
+        "the temp feature. TLC enumerates every sequence of edits (set/"
+        "change/delete each [calculation]/[imaging] key, set/replace the "
+        "temp feature) up to the depth bound from six preset configurations "
+        "(empty, scenarios A/B/C, everything set) with reads in between or "
+        "not; each history runs on a long-lived dataset and every read of "
+        "emodulus, time, fl1_max_ctc, area_ratio is compared with a freshly "
+        "constructed dataset holding the same data and current settings."),
+  note=("in-memory datasets with a small registered LUT (a 10^4-node LUT "
+        "costs 1 s per read); quick depth 2 (5.9k histories), thorough "
+        "depth 3; ML/plugin features and hierarchy refresh are exercised by "
+        "C04; two availability inconsistencies pinned by existing tests are "
+        "listed as known findings."),
+  technique="TLC-enumerated edit/read histories vs. fresh-dataset oracle",
+ ),
 }
 
 NOT_YET = "check not built yet (work in progress; see DESIGN.md section 5)"
